@@ -16,6 +16,15 @@ except ImportError:
                           "--target", deps, "hypothesis"])
     if rc:
         sys.exit(rc)
+# atheris is only needed by the thorough tier of C05 (coverage-guided campaign); absence is tolerated there
+try:
+    sys.path.append(deps)
+    import atheris  # noqa
+
+    sys.path.remove(deps)
+except ImportError:
+    os.makedirs(deps, exist_ok=True)
+    subprocess.call([sys.executable, "-m", "pip", "install", "-q", "--no-index", "--find-links", "/opt/veriftools/wheels", "--target", deps, "atheris"])
 for d in ("evidence", "replays"):
     os.makedirs(os.path.join(VERIF, d), exist_ok=True)
 sys.path.insert(0, os.environ.get("VERIF_REPO", "/repo"))
